@@ -333,6 +333,24 @@ def run(ctx):
         ok = e1[0] in ("place", "local") and (e1[1] if e1[0] == "local" else e1[1][0]) == 3 and e2[0] == "call" and e2[1].endswith("Option::<T>::unwrap_or") \
             and e2[2][0][0] in ("place", "local") and (e2[2][0][1] if e2[2][0][0] == "local" else e2[2][0][1][0]) == 4 and e2[2][1][0] == "const" and (
                 e2[2][1][1] == 4294967295 or "MAX" in str(e2[2][1][3]))
+        if not ok and e1[0] in ("place", "local") and (e1[1] if e1[0] == "local" else e1[1][0]) == 3:
+            # the same value spelled as `match max { Some(m) => m, None => u32::MAX }`: a local with exactly two definitions,
+            # the Some payload of parameter 4 and the constant u32::MAX
+            l2 = e2[1] if e2[0] == "local" else (e2[1][0] if e2[0] == "place" and len(e2[1]) == 1 else None)
+            if isinstance(l2, int):
+                kinds = set()
+                for (_, _, k_, p_) in b.defs().get(l2, []):
+                    if k_ == "assign" and p_["rv"] == "use":
+                        ev = b.expr(p_["o"])
+                        if ev[0] == "const" and ev[1] == 4294967295:
+                            kinds.add("max")
+                        elif ev[0] == "place" and ev[1][0] == 4 and any(isinstance(x, dict) and x.get("dc") == "Some" for x in ev[1][1:]):
+                            kinds.add("some")
+                        else:
+                            kinds.add("other")
+                    else:
+                        kinds.add("other")
+                ok = kinds == {"max", "some"}
     ctx.check(ok, "C09-R1", "regex-repeat:ast", "RegexAst::Repeat(node, min, max.unwrap_or(u32::MAX))",
               "RegexBuilder::repeat no longer builds Repeat(node, min, max.unwrap_or(u32::MAX))", site=rr.where())
 
